@@ -296,7 +296,7 @@ func CorpusNames(seed int64, tier string) []*Case {
 	var cases []*Case
 	pkgs := []Pkg{dep("s1", "n", "s1"), dep("ctx", "n", "ctx")}
 	names := []string{"", "_", "s", "s1", "s2", "n", "x", "xOut", "sMoqParam", "id", "Id", "url", "ctx", "sync", "T", "v", "err", "in", "out", "result",
-		"key", "_key", "__key", "x_", "x_1", "Key_"}
+		"key", "_key", "__key", "x_", "x_1", "Key_", "mock", "callInfo", "string", "int", "error", "LocalT"}
 	types := []T{Basic("string"), Basic("int"), Named(0, "T"), Named(1, "T"), errT}
 	rng := rand.New(rand.NewSource(seed))
 	var methods []Method
